@@ -9,8 +9,9 @@
 // libstdc++'s std::complex * and / are run as a second opinion on the rule table (a disagreement is a
 // harness error, not a violation).  See DESIGN.md, subsection C10, and NOTES.md.
 //
-// Build: -DC10_T=float|double and one of -DC10_PART_ADDSUB / _MUL / _DIV / _MISC / _MIXED / _SCALAR (the latter with
-// -DC10_SGROUP=0..2: which third of the scalar types this binary instantiates).
+// Build: -DC10_T=float|double and one of -DC10_PART_ADDSUB / _MUL / _DIV / _MISC / _MIXED / _MIXC / _SCALAR (the latter with
+// -DC10_SGROUP=0..2: which third of the scalar types this binary instantiates).  _MIXED: == / != between different value
+// types; _MIXC: compound assignment between xcomplex objects of different value types.
 #include "c10_variants.hpp"
 #include "report.hpp"
 
@@ -46,6 +47,13 @@ template <> struct cfg<float>
 {
     static const char* name() { return "float"; }
     enum { W = 30, BIG = 60, QRANGE = 110 };
+};
+
+// only used to build the alphabet of long double RIGHT operands of the part MIXC (no result is ever judged in long double)
+template <> struct cfg<long double>
+{
+    static const char* name() { return "long double"; }
+    enum { W = 200, BIG = 500, QRANGE = 1000 };
 };
 
 template <class T> static bool is_nan(T x) { return x != x; }
@@ -278,13 +286,17 @@ static const char* part_name = "mul";
 #define C10_IF_div(x) x
 #define C10_MISC(x)
 static const char* part_name = "div";
-#elif defined(C10_PART_MIXED)
+#elif defined(C10_PART_MIXED) || defined(C10_PART_MIXC)
 #define C10_IF_add(x)
 #define C10_IF_sub(x)
 #define C10_IF_mul(x)
 #define C10_IF_div(x)
 #define C10_MISC(x)
+#if defined(C10_PART_MIXC)
+static const char* part_name = "mixc";
+#else
 static const char* part_name = "mixed";
+#endif
 #elif defined(C10_PART_SCALAR)
 #define C10_IF_add(x)
 #define C10_IF_sub(x)
@@ -309,6 +321,10 @@ static const char* part_name = "misc";
 #define MEQ(T1, K1, B1, T2, K2, B2)
 #define MNE(T1, K1, B1, T2, K2, B2)
 #define MBIN(op, T1, T2)
+// compound assignment between different value types is registered by register_mixc
+#define MCMPD(op, T1, K1, B1, T2, K2, B2)
+#define MCSTD(op, T1, B1, T2)
+#define MCS(op, T1, K1, B1, T2)
 
 #define BIN(op, K1, B1, K2, B2) C10_IF_##op(reg.arith2(#op, "bin", false, c10::K1, B1, c10::K2, B2, &c10::v_bin<T, c10::op_##op, c10::K1, B1, c10::K2, B2>);)
 #define CMPD(op, K1, B1, K2, B2) C10_IF_##op(reg.arith2(#op, "cmpd", true, c10::K1, B1, c10::K2, B2, &c10::v_cmpd<T, c10::op_##op, c10::K1, B1, c10::K2, B2>);)
@@ -471,10 +487,10 @@ template <class T> static bool part_ws(T x)
 
 static long long g_disagree = 0, g_libnan = 0, g_second_opinions = 0;
 
-// xa / xc: the exact value of the real part of the first / second operand when it is a scalar of another type whose value T
+// xa / xc (/ xd: imaginary part of the second operand, part MIXC): the exact value of the real part of the first / second operand when it is a scalar of another type whose value T
 // cannot hold (a and c are then that value after conversion to T; classification and the well-scaled test use the converted value)
 template <class T>
-static void make_oracle(Oracle<T>& o, T a, T b, T c, T d, const q128* xa = nullptr, const q128* xc = nullptr)
+static void make_oracle(Oracle<T>& o, T a, T b, T c, T d, const q128* xa = nullptr, const q128* xc = nullptr, const q128* xd = nullptr)
 {
     o.valid = true;
     o.p[0] = a; o.p[1] = b; o.q[0] = c; o.q[1] = d;
@@ -484,7 +500,7 @@ static void make_oracle(Oracle<T>& o, T a, T b, T c, T d, const q128* xa = nullp
     for (int k = 0; k < 4; ++k) { o.op[k].tol_any = o.op[k].tol_ieee = false; o.op[k].expect = E_NONE; o.op[k].rule = ""; o.op[k].er = o.op[k].ei = o.op[k].n2 = 0; }
     if (pfin && qfin)
     {
-        q128 A = xa ? *xa : q128(a), B = b, C = xc ? *xc : q128(c), D = d;
+        q128 A = xa ? *xa : q128(a), B = b, C = xc ? *xc : q128(c), D = xd ? *xd : q128(d);
         o.op[0].er = A + C; o.op[0].ei = B + D;
         o.op[1].er = A - C; o.op[1].ei = B - D;
         o.op[2].er = A * C - B * D; o.op[2].ei = A * D + B * C;
@@ -613,13 +629,51 @@ static void check_after(const Variant<T>& v, const IO<T>& io)
     }
 }
 
-// returns true when at least one value-level rule judged this evaluation
+// returns true when at least one value-level rule judged this evaluation.  fam() -> signature prefix, what() -> description,
+// rep(sig, msg) reports; op 0..3, eff = effective ieee_compliant, out = the two result parts
+template <class T, class Fam, class What, class Rep>
+static bool judge_core(int op, bool eff, const T out[2], const Oracle<T>& o, Fam fam, What what, Rep rep)
+{
+    const PerOp& r = o.op[op];
+    bool judged = false;
+    g_last_tol = false;
+    if (r.tol_any || (eff && r.tol_ieee))
+    {
+        judged = true;
+        g_last_tol = true;
+        ++g_tol_checks;
+        const T eps = std::numeric_limits<T>::epsilon();
+        if (!is_fin(out[0]) || !is_fin(out[1]))
+            rep(fam() + "nonfinite-result", what() + ": exact result is (" + fmt(T(r.er)) + ", " + fmt(T(r.ei)) + ")");
+        else
+        {
+            q128 dr = q128(out[0]) - r.er, di = q128(out[1]) - r.ei;
+            q128 tol = q128(8) * q128(eps);
+            bool bad = dr * dr + di * di > tol * tol * r.n2;
+            if (!bad && op < 2)   // + and - are componentwise: each part within 4 eps of its exact value
+                bad = q_abs(dr) > q128(4) * q128(eps) * q_abs(r.er) || q_abs(di) > q128(4) * q128(eps) * q_abs(r.ei);
+            if (bad)
+                rep(fam() + "inexact", what() + ": exact result is (" + fmt(T(r.er)) + ", " + fmt(T(r.ei)) + "), error exceeds 8 eps |z| (4 eps per part for + and -)");
+        }
+    }
+    if (eff && r.expect != E_NONE)
+    {
+        judged = true;
+        ++g_rule_checks;
+        int rc = zclass(out[0], out[1]);
+        if (r.expect == E_INF && rc != Z_INF)
+            rep(fam() + "expected-infinity", what() + ": result is " + zname(rc) + "; Annex G: " + r.rule);
+        else if (r.expect == E_ZERO && rc != Z_ZERO)
+            rep(fam() + "expected-zero", what() + ": result is " + zname(rc) + "; Annex G: " + r.rule);
+        else if (r.expect == E_NOTNAN && rc == Z_NAN)
+            rep(fam() + "nan-from-finite", what() + ": result is a NaN; Annex G: " + r.rule);
+    }
+    return judged;
+}
+
 template <class T>
 static bool judge_arith(const Variant<T>& v, const IO<T>& io, const Oracle<T>& o)
 {
-    const PerOp& r = o.op[v.op];
-    bool judged = false;
-    g_last_tol = false;
     // strings are only built when something is wrong
     auto fam = [&]() {
         return std::string("C10/") + op_names[v.op] + (v.eff ? ".ieee<" : ".naive<") + cfg<T>::name() + ">/" + form_name(v.form) + (v.stype >= 0 ? "." + v.sname : std::string()) + "/" +
@@ -629,38 +683,7 @@ static bool judge_arith(const Variant<T>& v, const IO<T>& io, const Oracle<T>& o
         return describe(v, io) + " [effective operands " + fmtc(o.p[0], o.p[1]) + " " + op_chars[v.op] + " " + fmtc(o.q[0], o.q[1]) +
                ", ieee_compliant=" + (v.eff ? "true" : "false") + "]";
     };
-    if (r.tol_any || (v.eff && r.tol_ieee))
-    {
-        judged = true;
-        g_last_tol = true;
-        ++g_tol_checks;
-        const T eps = std::numeric_limits<T>::epsilon();
-        if (!is_fin(io.out[0]) || !is_fin(io.out[1]))
-            report(v, io, fam() + "nonfinite-result", what() + ": exact result is (" + fmt(T(r.er)) + ", " + fmt(T(r.ei)) + ")");
-        else
-        {
-            q128 dr = q128(io.out[0]) - r.er, di = q128(io.out[1]) - r.ei;
-            q128 tol = q128(8) * q128(eps);
-            bool bad = dr * dr + di * di > tol * tol * r.n2;
-            if (!bad && v.op < 2)   // + and - are componentwise: each part within 4 eps of its exact value
-                bad = q_abs(dr) > q128(4) * q128(eps) * q_abs(r.er) || q_abs(di) > q128(4) * q128(eps) * q_abs(r.ei);
-            if (bad)
-                report(v, io, fam() + "inexact", what() + ": exact result is (" + fmt(T(r.er)) + ", " + fmt(T(r.ei)) + "), error exceeds 8 eps |z| (4 eps per part for + and -)");
-        }
-    }
-    if (v.eff && r.expect != E_NONE)
-    {
-        judged = true;
-        ++g_rule_checks;
-        int rc = zclass(io.out[0], io.out[1]);
-        if (r.expect == E_INF && rc != Z_INF)
-            report(v, io, fam() + "expected-infinity", what() + ": result is " + zname(rc) + "; Annex G: " + r.rule);
-        else if (r.expect == E_ZERO && rc != Z_ZERO)
-            report(v, io, fam() + "expected-zero", what() + ": result is " + zname(rc) + "; Annex G: " + r.rule);
-        else if (r.expect == E_NOTNAN && rc == Z_NAN)
-            report(v, io, fam() + "nan-from-finite", what() + ": result is a NaN; Annex G: " + r.rule);
-    }
-    return judged;
+    return judge_core<T>(v.op, v.eff, io.out, o, fam, what, [&](const std::string& sig, const std::string& msg) { report(v, io, sig, msg); });
 }
 
 template <class T>
@@ -1046,7 +1069,7 @@ static int run_all(int argc, char** argv)
 // ------------------------------------------------------------------------------------------------------
 // mixed value types (part MIXED): == / != between xcomplex over float, double, int, long double, and binary
 // arithmetic between different value types where it compiles (nowhere on the pinned tree)
-#if defined(C10_PART_MIXED)
+#if defined(C10_PART_MIXED) || defined(C10_PART_MIXC)
 template <class T> struct tyname;
 template <> struct tyname<float> { static const char* n() { return "float"; } };
 template <> struct tyname<double> { static const char* n() { return "double"; } };
@@ -1065,6 +1088,9 @@ template <class T> static bool representable(ld v)
 // usable as a part of an operand of type T1 that meets an operand of type T2: exact in T1 and in the type the built-in
 // comparison converts both sides to (so that "comparing both parts" has one meaning, e.g. int 2^24+1 never meets a float)
 template <class T1, class T2> static bool usable(ld v) { return representable<T1>(v) && representable<typename std::common_type<T1, T2>::type>(v); }
+#endif
+
+#if defined(C10_PART_MIXED)
 
 struct MVariant
 {
@@ -1207,21 +1233,37 @@ static int run_mixed(int argc, char** argv)
                          ld(1e30f), ld(1e300), inf, -inf, std::numeric_limits<ld>::quiet_NaN()};
         const ld* M = thorough ? Mt : Mq;
         const int n = thorough ? int(sizeof Mt / sizeof Mt[0]) : int(sizeof Mq / sizeof Mq[0]);
-        for (size_t vi = 0; vi < g_mixed.size(); ++vi)
+        // Order of the enumeration: the unit of work is (variant, value of the first operand's real part).  All variants of the
+        // shard advance together, one real-part value per step, and variant number i starts at its i-th value, so a deadline cut
+        // on a loaded machine removes the last steps of EVERY variant (a different value for each) instead of whole variants.
+        std::vector<size_t> mine;
+        for (size_t vi = 0; vi < g_mixed.size(); ++vi) if (int(vi % nshard) == shard) mine.push_back(vi);
+        std::vector<std::vector<ld> > As(mine.size()), Bs(mine.size());
+        size_t steps = 0;
+        for (size_t k = 0; k < mine.size(); ++k)
         {
-            if (int(vi % nshard) != shard) continue;
-            const MVariant& m = g_mixed[vi];
+            const MVariant& m = g_mixed[mine[k]];
+            for (int i = 0; i < n; ++i) { if (m.ok1(M[i])) As[k].push_back(M[i]); if (m.ok2(M[i])) Bs[k].push_back(M[i]); }
+            steps = std::max(steps, As[k].size());
+        }
+        for (size_t step = 0; step < steps; ++step)
+        {
             if (deadline && (long long)std::time(nullptr) > deadline)
             {
-                vf::cap("deadline: mixed shard " + vf::str(shard) + "/" + vf::str(nshard) + " stopped before variant " + m.name);
+                vf::cap("deadline: mixed shard " + vf::str(shard) + "/" + vf::str(nshard) + " stopped before step " + vf::str(step) + " of " + vf::str(steps) +
+                        " (every one of its " + vf::str(mine.size()) + " variants has been run on " + vf::str(step) + " values of the first real part, all values of the other three parts)");
                 break;
             }
-            std::vector<ld> A, B;
-            for (int i = 0; i < n; ++i) { if (m.ok1(M[i])) A.push_back(M[i]); if (m.ok2(M[i])) B.push_back(M[i]); }
-            for (ld a : A) for (ld b : A) for (ld c : B) for (ld d : B)
+            for (size_t k = 0; k < mine.size(); ++k)
             {
-                ld in[4] = {a, b, c, d};
-                mixed_one(m, in, false);
+                const std::vector<ld>&A = As[k], &B = Bs[k];
+                if (step >= A.size()) continue;
+                const ld a = A[(step + k) % A.size()];
+                for (ld b : A) for (ld c : B) for (ld d : B)
+                {
+                    ld in[4] = {a, b, c, d};
+                    mixed_one(g_mixed[mine[k]], in, false);
+                }
             }
         }
         vf::stat("variants_mixed", shard == 0 ? (long long)g_mixed.size() : 0);
@@ -1236,10 +1278,342 @@ static int run_mixed(int argc, char** argv)
 }
 #endif
 
+#if defined(C10_PART_MIXC)
+// ------------------------------------------------------------------------------------------------------
+// part MIXC: compound assignment x OP= y between xcomplex objects of DIFFERENT value types.  x is over T1 in {float, double}
+// (closure kinds V, R), y over T2 in {float, double, int, long double} \ {T1} (closure kinds V, R, C), both ieee flags on
+// either side, four operators; plus the right operand converted from / handed over as a std::complex<T2>.  The result has
+// the LEFT operand's value type, and it is judged in that precision: exact result in __float128 from the exact operand
+// values, the same tolerance, Annex G rule table, closure identity and operands-afterwards rules as everywhere else.
+struct MCVariant
+{
+    std::string name;       // e.g. div:mcmpd:double:V0:float:C0
+    int op;
+    bool b1, b2, eff;
+    int k1;
+    int kind;               // 0: x op= y (y an xcomplex over T2); 1: x op= xcomplex<T1>(std::complex<T2>); 2: x op= std::complex<T2>
+    void (*fn)(c10::MIO&);
+    int group, base;        // closure identity: same kind, operation and flags, any closure kinds
+};
+static const char* mc_kind_tag[3] = {"mcmpd", "mcstd", "mcs"};
+static const char* mc_kind_form[3] = {"mc", "mc-stdconv", "mc-std"};
+static long long g_mc_eval = 0, g_mc_judged = 0, g_mc_distinct = 0, g_mc_tuples = 0, g_mc_inexact_rhs = 0;
+static long long g_mc_samples_tol = 0, g_mc_samples_ieee = 0;
+
+static void push_unique(std::vector<ld>& r, ld v)
+{
+    for (ld w : r) if (std::memcmp(&w, &v, 10) == 0) return;
+    r.push_back(v);
+}
+
+struct MCGroupBase
+{
+    std::vector<MCVariant> v;
+    std::map<std::string, int> groups;
+    std::vector<int> group_first;
+    std::vector<ld> A, B;   // parts of the left operand (values of T1), parts of the right operand (values of T2 that T1 can take)
+    virtual ~MCGroupBase() {}
+    virtual const char* t1() const = 0;
+    virtual const char* t2() const = 0;
+    virtual void build_alphabets(bool thorough) = 0;
+    virtual void run_tuple(const ld in[4], bool verbose) = 0;
+    void add(MCVariant x, const std::string& gkey)
+    {
+        auto it = groups.find(gkey);
+        if (it == groups.end())
+        {
+            int g = int(groups.size());
+            groups[gkey] = g;
+            group_first.push_back(int(v.size()));
+            x.group = g;
+        }
+        else
+            x.group = it->second;
+        x.base = group_first[x.group];
+        v.push_back(x);
+    }
+};
+static std::vector<MCGroupBase*> g_mc_groups;
+
+template <class T> struct tytok;
+template <> struct tytok<float> { static const char* n() { return "float"; } };
+template <> struct tytok<double> { static const char* n() { return "double"; } };
+template <> struct tytok<int> { static const char* n() { return "int"; } };
+template <> struct tytok<long double> { static const char* n() { return "ldouble"; } };
+
+// the alphabet of a right operand's type: the component alphabet V of the tier for a floating type, boundary values for int
+template <class T2> struct right_pool
+{
+    static void fill(std::vector<ld>& r, bool thorough) { for (T2 x : alphabet<T2>(thorough)) push_unique(r, ld(x)); }
+};
+template <> struct right_pool<int>
+{
+    static void fill(std::vector<ld>& r, bool thorough)
+    {
+        const ld mx = ld(std::numeric_limits<int>::max()), mn = ld(std::numeric_limits<int>::min());
+        // 46341^2 and 65536^2 leave the range of int; max and min have no square / opposite in int
+        const ld q[] = {0, 1, -1, 2, 3, -7, 46341, -65536, mx, mn};
+        const ld t[] = {5, 10, 100, -3, 255, 32768, 46340, -46341, ld(1 << 30), mx - 1, mn + 1};
+        for (ld x : q) push_unique(r, x);
+        if (thorough) for (ld x : t) push_unique(r, x);
+    }
+};
+
+template <class T1, class T2>
+struct MCGroup : MCGroupBase
+{
+    static MCGroup& get()
+    {
+        static MCGroup* g = nullptr;
+        if (!g) { g = new MCGroup; g_mc_groups.push_back(g); }
+        return *g;
+    }
+    const char* t1() const override { return tyname<T1>::n(); }
+    const char* t2() const override { return tyname<T2>::n(); }
+
+    void reg(const char* op, int kind, int k1, bool b1, const std::string& rest, bool b2, void (*fn)(c10::MIO&))
+    {
+        MCVariant x;
+        x.op = Registry<double>::opidx(op); x.b1 = b1; x.b2 = b2; x.eff = b1 || b2; x.k1 = k1; x.kind = kind; x.fn = fn; x.group = x.base = -1;
+        x.name = std::string(op) + ":" + mc_kind_tag[kind] + ":" + tyname<T1>::n() + ":" + kname(k1) + (b1 ? "1" : "0") + ":" + tyname<T2>::n() + rest;
+        add(x, std::string(op) + ":" + mc_kind_tag[kind] + ":" + (b1 ? "1" : "0") + (b2 ? "1" : "0"));
+    }
+
+    // a value of T2 that can be a part of the right operand when the left operand is over T1: the conversion to T1 - which the
+    // library has to perform somewhere, and which the property allows to round once - must keep it what it is in the statement's
+    // classification: a finite value stays finite, a non-zero value stays non-zero
+    static bool right_usable(ld x)
+    {
+        if (!representable<T2>(x)) return false;
+        if (x != x || is_inf(x)) return true;
+        if (std::fabs(x) > ld(std::numeric_limits<T1>::max())) return false;
+        T1 c = static_cast<T1>(x);
+        return is_fin(c) && ((x == 0) == (c == T1(0)));
+    }
+
+    void build_alphabets(bool thorough) override
+    {
+        A.clear(); B.clear();
+        // left parts: the quick component alphabet of T1 in both tiers (the thorough tier deepens the right operand, whose type is
+        // the foreign one), plus the limits of T1's well-scaled band in the thorough tier
+        for (T1 x : alphabet<T1>(false)) push_unique(A, ld(x));
+        const int W1 = int(cfg<T1>::W);
+        if (thorough)
+        {
+            const T1 e[] = {std::ldexp(T1(1), W1), -std::ldexp(T1(1), -W1), std::ldexp(T1(1.1), W1 - 1), -std::ldexp(T1(1.7), -(W1 - 1))};
+            for (T1 x : e) push_unique(A, ld(x));
+        }
+        // right parts: the alphabet of T2, the alphabet of T1 as far as T2 holds it (magnitudes that are extreme for T1), and two
+        // inexact mantissas at the ends of T1's well-scaled band rounded to T2 (large / small for the narrower type, but well-scaled)
+        std::vector<ld> pool;
+        right_pool<T2>::fill(pool, thorough);
+        for (T1 x : alphabet<T1>(thorough)) push_unique(pool, ld(x));
+        const ld e[] = {std::ldexp(ld(1.1), W1 - 1), -std::ldexp(ld(1.7), -(W1 - 1))};
+        for (ld x : e)
+            if (std::fabs(x) <= ld(std::numeric_limits<T2>::max())) push_unique(pool, ld(static_cast<T2>(x)));
+        for (ld x : pool) if (right_usable(x)) push_unique(B, x);
+    }
+
+    std::vector<T1> bout;
+    std::vector<char> bvalid;
+
+    void run_tuple(const ld in[4], bool verbose) override
+    {
+        ++g_mc_tuples;
+        const ld a = in[0], b = in[1], c = in[2], d = in[3];
+        const T1 ta = static_cast<T1>(a), tb = static_cast<T1>(b), tc = static_cast<T1>(c), td = static_cast<T1>(d);
+        const bool cfin = c == c && !is_inf(c), dfin = d == d && !is_inf(d);
+        const q128 xc = cfin ? q128(c) : q128(0), xd = dfin ? q128(d) : q128(0);
+        // T1 holds the right operand exactly?  If not, the single rounding of the operand that the property allows can be magnified
+        // without bound by cancellation in + and -; * and / keep it within the tolerance (normwise perturbation of one operand by eps/2)
+        const bool exact = (c != c || ld(tc) == c) && (d != d || ld(td) == d);
+        if (!exact) ++g_mc_inexact_rhs;
+        Oracle<T1> oe, oc;
+        make_oracle<T1>(oe, ta, tb, tc, td, nullptr, cfin ? &xc : nullptr, dfin ? &xd : nullptr);
+        if (!exact) oe.op[0].tol_any = oe.op[1].tol_any = false;
+        oc.valid = false;
+        bout.assign(2 * groups.size(), T1(0));
+        bvalid.assign(groups.size(), 0);
+        unsigned seen = 0;
+        for (size_t vi = 0; vi < v.size(); ++vi)
+        {
+            const MCVariant& m = v[vi];
+            c10::MIO io;
+            for (int i = 0; i < 4; ++i) io.in[i] = in[i];
+            io.out[0] = io.out[1] = 0;
+            io.flags = 0;
+            m.fn(io);
+            ++g_mc_eval;
+            const T1 out[2] = {static_cast<T1>(io.out[0]), static_cast<T1>(io.out[1])};   // values of T1, widened exactly on the way out
+            auto rep = [&](const std::string& sig, const std::string& msg) {
+                if (!g_only.empty() && m.name != g_only) return;
+                vf::violation(sig, msg, {"--one", m.name, hexl(in[0]), hexl(in[1]), hexl(in[2]), hexl(in[3])});
+            };
+            auto desc = [&]() {
+                return m.name + " on (" + fmtl(a) + ", " + fmtl(b) + ") [" + t1() + "] and (" + fmtl(c) + ", " + fmtl(d) + ") [" + t2() + "] -> " + fmtc(out[0], out[1]);
+            };
+            if (vf::take_asan())
+                rep("C10/" + m.name + "/memory/asan-report", desc() + ": AddressSanitizer reported an error during this operation (see stderr)");
+            // kind 1: the right operand has been converted to T1 by a constructor before the operation, so the operation's operands
+            // are the converted values
+            const Oracle<T1>* o = &oe;
+            if (m.kind == 1 && !exact)
+            {
+                if (!oc.valid) make_oracle<T1>(oc, ta, tb, tc, td);
+                o = &oc;
+            }
+            auto fam = [&]() {
+                return std::string("C10/") + op_names[m.op] + (m.eff ? ".ieee<" : ".naive<") + cfg<T1>::name() + ">/" + mc_kind_form[m.kind] + "." + tytok<T2>::n() + "/" +
+                       zclass_name(o->p[0], o->p[1]) + op_chars[m.op] + zclass_name(o->q[0], o->q[1]) + "/";
+            };
+            auto what = [&]() {
+                return desc() + " [result judged in " + cfg<T1>::name() + ", ieee_compliant=" + (m.eff ? "true" : "false") + (m.kind == 1 ? ", right operand after its conversion: " + fmtc(tc, td) : std::string()) + "]";
+            };
+            const bool judged = judge_core<T1>(m.op, m.eff, out, *o, fam, what, rep);
+            const bool nontrivial = o->pc != Z_ZERO && o->qc != Z_ZERO;
+            if (judged)
+            {
+                ++g_mc_judged;
+                const unsigned bit = 1u << (m.kind * 8 + m.op * 2 + (m.eff ? 1 : 0));
+                if (nontrivial && !(seen & bit)) { seen |= bit; ++g_mc_distinct; }
+                if (nontrivial && g_last_tol && !exact && m.kind == 0 && g_mc_samples_tol++ == 777)
+                    vf::sample(desc() + " [exact " + fmtc(T1(o->op[m.op].er), T1(o->op[m.op].ei)) + ", within 8 eps of " + cfg<T1>::name() + "]", 2);
+                else if (nontrivial && m.eff && (o->pc >= Z_INF || o->qc >= Z_INF) && o->op[m.op].expect != E_NONE && g_mc_samples_ieee++ == 999)
+                    vf::sample(desc() + " [Annex G: " + o->op[m.op].rule + "]", 2);
+            }
+            // the same operation through any closure kinds must give the value closures' bits
+            if (int(vi) == m.base) { bout[2 * m.group] = out[0]; bout[2 * m.group + 1] = out[1]; bvalid[m.group] = 1; }
+            else if (bvalid[m.group])
+            {
+                ++g_vs_value;
+                if (!same_mod_nan(out[0], bout[2 * m.group]) || !same_mod_nan(out[1], bout[2 * m.group + 1]))
+                    rep("C10/" + m.name + "/vs-" + v[m.base].name + "/result-differs", desc() + ": the same operation with closures " + v[m.base].name + " gives " + fmtc(bout[2 * m.group], bout[2 * m.group + 1]));
+            }
+            // operands afterwards
+            if (io.flags & c10::F_RETREF)
+                rep("C10/" + m.name + "/operands-after/return-is-not-self", desc() + ": the compound operator did not return a reference to its left operand");
+            if (io.flags & c10::F_M_RHS)
+                rep("C10/" + m.name + "/operands-after/operand-modified", desc() + ": the right operand (object or its storage) was modified");
+            if (io.flags & c10::F_M_LHS_STOR)
+                rep("C10/" + m.name + "/operands-after/" + (m.k1 == c10::KR ? "referent-not-updated" : "storage-of-value-closure-written"), desc() + ": storage of the left operand after the operation");
+            if (io.flags & c10::F_M_RVAL)
+                rep("C10/" + m.name + "/conversion/rvalue-differs-from-lvalue", desc() + ": converting an rvalue std::complex gives other parts than converting an lvalue");
+            if (verbose && (g_only.empty() || g_only == m.name))
+                std::printf("%s%s\n", desc().c_str(), judged ? "" : "  (not judged by a value rule)");
+        }
+    }
+};
+
+#undef MCMPD
+#undef MCSTD
+#undef MCS
+#define MCMPD(op, T1, K1, B1, T2, K2, B2) MCGroup<c10::ty_##T1, c10::ty_##T2>::get().reg(#op, 0, c10::K1, B1, std::string(":") + kname(c10::K2) + (B2 ? "1" : "0"), B2, &c10::m_cmpd<c10::ty_##T1, c10::K1, B1, c10::ty_##T2, c10::K2, B2, c10::op_##op>);
+#define MCSTD(op, T1, B1, T2) MCGroup<c10::ty_##T1, c10::ty_##T2>::get().reg(#op, 1, c10::KV, B1, "", B1, &c10::m_cstd<c10::ty_##T1, B1, c10::ty_##T2, c10::op_##op>);
+#define MCS(op, T1, K1, B1, T2) MCGroup<c10::ty_##T1, c10::ty_##T2>::get().reg(#op, 2, c10::K1, B1, "", B1, &c10::m_cs<c10::ty_##T1, c10::K1, B1, c10::ty_##T2, c10::op_##op>);
+static std::string tytok_of(const char* n) { std::string s = n; return s == "long double" ? "ldouble" : s; }
+static void register_mixc()
+{
+#include "c10_variants.inc"
+}
+
+static int run_mixc(int argc, char** argv)
+{
+    int shard = 0, nshard = 1;
+    long long deadline = 0;
+    const char* one[5] = {nullptr, nullptr, nullptr, nullptr, nullptr};
+    bool list = false, thorough = false;
+    for (int i = 1; i < argc; ++i)
+    {
+        std::string s = argv[i];
+        if (s == "--tier") thorough = std::string(argv[++i]) == "thorough";
+        else if (s == "--shard") { shard = atoi(argv[i + 1]); nshard = atoi(argv[i + 2]); i += 2; }
+        else if (s == "--deadline") deadline = atoll(argv[++i]);
+        else if (s == "--one") { for (int k = 0; k < 5; ++k) one[k] = argv[i + 1 + k]; i += 5; }
+        else if (s == "--list") list = true;
+    }
+    register_mixc();
+    if (list) { for (auto* g : g_mc_groups) for (auto& m : g->v) std::printf("%s\n", m.name.c_str()); return 0; }
+    if (one[0])
+    {
+        g_only = one[0];
+        bool found = false;
+        ld in[4];
+        for (int k = 0; k < 4; ++k) in[k] = std::strtold(one[k + 1], nullptr);
+        for (auto* g : g_mc_groups)
+            for (auto& m : g->v)
+                if (m.name == g_only && !found) { found = true; g->run_tuple(in, true); }
+        if (!found) { std::printf("no variant %s in part mixc\n", one[0]); return 3; }
+    }
+    else
+    {
+        // Order of the enumeration: the unit of work is (type pair, value of the left operand's real part); a unit runs ALL variants
+        // of the type pair (4 operators x closure kinds x flags x forms) on all values of the other three parts.  The units are dealt
+        // to the shards step by step, every type pair starting at a different value, so a deadline cut on a loaded machine removes
+        // the last steps of every type pair and every operator alike - never the same variants (e.g. the divisions) every time.
+        const int G = int(g_mc_groups.size());
+        size_t steps = 0;
+        long long nvar = 0;
+        for (auto* g : g_mc_groups) { g->build_alphabets(thorough); steps = std::max(steps, g->A.size()); nvar += (long long)g->v.size(); }
+        bool stopped = false;
+        for (size_t step = 0; step < steps && !stopped; ++step)
+            for (int gi = 0; gi < G; ++gi)
+            {
+                MCGroupBase* g = g_mc_groups[gi];
+                if (step >= g->A.size() || g->v.empty()) continue;
+                if (int((step * size_t(G + 1) + size_t(gi)) % size_t(nshard)) != shard) continue;
+                if (deadline && (long long)std::time(nullptr) > deadline)
+                {
+                    vf::cap("deadline: mixc shard " + vf::str(shard) + "/" + vf::str(nshard) + " stopped before step " + vf::str(step) + " of " + vf::str(steps) +
+                            " (unit = one value of the left real part per type pair, all variants of the pair; " + vf::str(step) + " values done for every type pair of this shard)");
+                    stopped = true;
+                    break;
+                }
+                const ld a = g->A[(step + 3 * size_t(gi)) % g->A.size()];
+                for (ld b : g->A) for (ld c : g->B) for (ld d : g->B)
+                {
+                    ld in[4] = {a, b, c, d};
+                    g->run_tuple(in, false);
+                }
+            }
+        if (shard == 0)
+        {
+            vf::stat("variants_mixc", nvar);
+            vf::stat("mixc_type_pairs", G);
+            for (auto* g : g_mc_groups)
+            {
+                vf::smax("mixc_left_alphabet_size", (long long)g->A.size());
+                vf::smax("mixc_right_alphabet_size_max", (long long)g->B.size());
+                vf::stat(std::string("mixc_operand_tuples_") + tytok_of(g->t1()) + "_" + tytok_of(g->t2()), (long long)(g->A.size() * g->A.size() * g->B.size() * g->B.size()));
+            }
+        }
+    }
+    vf::stat("evaluations", g_mc_eval);
+    vf::stat("mixed_compound_evaluations", g_mc_eval);
+    vf::stat("mixed_compound_evaluations_judged", g_mc_judged);
+    vf::stat("mixed_compound_operand_tuples", g_mc_tuples);
+    vf::stat("mixed_compound_tuples_rhs_not_exact_in_lhs_type", g_mc_inexact_rhs);
+    vf::stat("judged_evaluations", g_mc_judged);
+    vf::stat("distinct_nontrivial", g_mc_distinct);
+    vf::stat("tolerance_checks", g_tol_checks);
+    vf::stat("annexg_rule_checks", g_rule_checks);
+    vf::stat("closure_identity_checks", g_vs_value);
+    vf::stat("mixed_compound_tolerance_checks", g_tol_checks);
+    vf::stat("mixed_compound_annexg_rule_checks", g_rule_checks);
+    vf::stat("mixed_compound_closure_identity_checks", g_vs_value);
+    vf::stat("oracle_disagreements", g_disagree);
+    vf::stat("rule_table_second_opinions", g_second_opinions);
+    vf::stat("libstdcxx_nan_from_finite_cases", g_libnan);
+    vf::done();
+    return 0;
+}
+#endif
+
 int main(int argc, char** argv)
 {
 #if defined(C10_PART_MIXED)
     return run_mixed(argc, argv);
+#elif defined(C10_PART_MIXC)
+    return run_mixc(argc, argv);
 #else
     return run_all<C10_T>(argc, argv);
 #endif
